@@ -1418,7 +1418,7 @@ RemoveDataCallback(DataNode & node, void * userData)
       if (node.GetParent()->GetChild(node.GetNodeName(), nodeRef).IsOK())
       {
          (void) ((Queue<DataNodeRef> *)userData)->AddTail(nodeRef);
-         return node.GetDepth()-1;  // no sense in recursing down a node that we're going to delete anyway
+         return node.GetDepth();
       }
    }
    return node.GetDepth();
@@ -1691,7 +1691,7 @@ CheckChildForTraversal(TraversalContext & data, DataNode * nextChild, int32 optK
                                  nextChild->SetData(origNodeMsg, NULL, DataNode::SetDataFlags());
                               }
 
-                              if (nextDepth < ((int)nextChild->GetDepth())-1)
+                              if (nextDepth < ((int)nextChild->GetDepth()))
                               {
                                  depth = nextDepth;
                                  return true;
@@ -1707,7 +1707,7 @@ CheckChildForTraversal(TraversalContext & data, DataNode * nextChild, int32 optK
                         {
                            // If we match a non-terminal clause in the path, recurse to the child.
                            const int nextDepth = DoTraversalAux(data, *nextChild);
-                           if (nextDepth < ((int)nextChild->GetDepth())-1)
+                           if (nextDepth < ((int)nextChild->GetDepth()))
                            {
                               depth = nextDepth;
                               return true;
